@@ -1,5 +1,5 @@
 CFG = dict(
-    theorems=["C12.fast_agrees", "C12.fast_compound_agrees", "C12.evaluate_eq_general", "C12.eval_total_bool",
+    theorems=["C12.fast_agrees", "C12.fast_declines_iff", "C12.fast_compound_agrees", "C12.evaluate_eq_general", "C12.eval_total_bool",
               "C12.paren_equiv", "C12.spec_holds", "C12.shape_cmp_iff", "C12.shape_compare_sound",
               "C12.shape_compound_sound", "C12.newCond_evaluate", "C12.round53_exact", "C12.exact_vs_rounded_literal",
               "C12.guard_needed", "C12.facts_regexes", "C12.facts_guards"],
